@@ -99,9 +99,11 @@ type Outcome struct {
 
 // Event is a synchronisation-relevant action recorded by stubs (C19).
 type Event struct {
-	Kind string // lock | unlock | access
-	Obj  string
-	Site string
+	Kind  string // lock | unlock | trylock | access | read | write | newgen | draw
+	Obj   string
+	Site  string
+	Seed  *term.Term // newgen/draw: the seed of the generator (nil when unknown)
+	Guard *term.Term // draw: the path guard at the draw
 }
 
 type VC struct {
@@ -162,6 +164,7 @@ type Exec struct {
 	ymdMemo     map[int]ymdWitness
 	Events      []Event
 	randN       int
+	tryN        int
 	Trace       bool
 	FeasQ       int
 	FeasSecs    float64
